@@ -6,7 +6,7 @@ export GOFLAGS=-mod=mod GOPROXY=off GOSUMDB=off GOTOOLCHAIN=local
 W=$(mktemp -d /tmp/confseed.XXXXXX)
 git -C /repo worktree add -q --detach "$W/r" HEAD || exit 2
 cd "$W/r"
-git apply "$SD/patch.diff" || { echo "PATCH-DOES-NOT-APPLY"; cd /; git -C /repo worktree remove --force "$W/r"; rm -rf "$W"; exit 2; }
+git apply "$( [ -f "$SD/patch_rebased.diff" ] && echo "$SD/patch_rebased.diff" || echo "$SD/patch.diff")" || { echo "PATCH-DOES-NOT-APPLY"; cd /; git -C /repo worktree remove --force "$W/r"; rm -rf "$W"; exit 2; }
 go build ./core/... ./limit/... ./limiter/... ./measurements/... ./strategy/... ./patterns/... ./grpc/... ./metric_registry/... >/dev/null 2>&1; echo "build_exit=$?"
 go test -vet=off -count=1 ./... >/tmp/conf_$ID.tests 2>&1; echo "tests_exit_with_change=$?"
 DEMO=$(ls "$SD"/*_test.go | head -1)
@@ -14,6 +14,6 @@ DEST=$(head -3 "$DEMO" | grep -o 'copy to: *[^ ]*' | head -1 | sed 's/copy to: *
 cp "$DEMO" "$DEST"; PKG=./$(dirname "$DEST")
 RACE=""; [ "$ID" = "C17" ] && RACE="-race"
 go test -vet=off -count=1 $RACE "$PKG" >/tmp/conf_$ID.with 2>&1; echo "demo_exit_with_change=$?"
-git apply -R "$SD/patch.diff"
+git apply -R "$( [ -f "$SD/patch_rebased.diff" ] && echo "$SD/patch_rebased.diff" || echo "$SD/patch.diff")"
 go test -vet=off -count=1 $RACE "$PKG" >/tmp/conf_$ID.without 2>&1; echo "demo_exit_without_change=$?"
 cd /; git -C /repo worktree remove --force "$W/r"; rm -rf "$W"
